@@ -481,17 +481,19 @@ fn format_directive<'entry>(
 
         FormatDirective::Path {
             strip_starting_point,
-        } => file_info
-            .path()
-            .strip_prefix(if *strip_starting_point {
-                get_starting_point(file_info)
+        } => {
+            if *strip_starting_point {
+                file_info
+                    .path()
+                    .strip_prefix(get_starting_point(file_info))
+                    // safe to unwrap: the prefix is derived *from* the path to begin
+                    // with, so it cannot be invalid.
+                    .unwrap()
+                    .to_string_lossy()
             } else {
-                Path::new("")
-            })
-            // safe to unwrap: the prefix is derived *from* the path to begin
-            // with, so it cannot be invalid.
-            .unwrap()
-            .to_string_lossy(),
+                file_info.path().to_string_lossy()
+            }
+        }
 
         FormatDirective::Permissions(PermissionsFormat::Symbolic) => {
             uucore::fs::display_permissions(meta()?, true).into()
